@@ -164,14 +164,22 @@ Fixpoint change_case_go (ts : list tok) (mode : nat) (st : cstate) : str :=
 Definition change_case (s : str) (mode : nat) : res str :=
   do ts <- scan s; Ok (change_case_go ts mode St_start).
 
-(* utils.py:290-318 bibtex_width; [cw] = charwidths.get(c, 0) *)
-Definition width_tok (cw : char -> Z) (t : tok) : Z :=
+(* utils.py:290-322 bibtex_width (after fix 7dc0a71); [cw] = charwidths.get(c, 0).  A token is a special
+   character iff it starts with a backslash and the previous token opened a group at brace level 1. *)
+Definition is_open1 (t : tok) : bool :=
+  let (s, l) := t in Nat.eqb l 1 && (match s with [c] => is_lbrace c | _ => false end).
+Definition width_tok (cw : char -> Z) (after_open : bool) (t : tok) : Z :=
   let (s, l) := t in
-  if Nat.eqb l 1 && (match s with b :: _ => N.eqb b c_bslash | [] => false end) then
+  if after_open && (match s with b :: _ => N.eqb b c_bslash | [] => false end) then
     (fold_left (fun a c => if is_brace c then a else a + cw c) (skipn 2 s) 0 - 1000)%Z
   else match s with [c] => cw c | _ => 0%Z end.
+Fixpoint width_go (cw : char -> Z) (ts : list tok) (after_open : bool) (acc : Z) : Z :=
+  match ts with
+  | [] => acc
+  | t :: r => width_go cw r (is_open1 t) (acc + width_tok cw after_open t)%Z
+  end.
 Definition bibtex_width (cw : char -> Z) (s : str) : res Z :=
-  do ts <- scan s; Ok (fold_left (fun a t => (a + width_tok cw t)%Z) ts 0%Z).
+  do ts <- scan s; Ok (width_go cw ts false 0%Z).
 
 (* utils.py:452-482 _find_closing_brace (after the fix): position just after the brace that
    brings the level (starting at 1) to 0; if the level never gets there, the end of the
